@@ -214,6 +214,9 @@ pub fn run(ctx: &mut Ctx) {
         let n = ctx.rng.range(4, 14) as usize;
         hists.push(gen_hist(&mut ctx.rng, n));
     }
+    if std::env::var("C16H3_VANISH_ONLY").is_ok() {
+        hists.clear();
+    }
     for (hi, ops) in hists.iter().enumerate() {
         let base = match scrape(maddr) {
             Some(o) => o,
@@ -433,6 +436,90 @@ pub fn run(ctx: &mut Ctx) {
         }
         ctx.stat("h3_metric_histories");
         ctx.stat_add("h3_operations", ops.len() as u64);
+    }
+    // ---- a client that vanishes without closing (no CONNECTION_CLOSE, no more datagrams) ---------------------------------
+    // its session and tunnels are released by the QUIC idle timeout - also when the endpoint still had data for it
+    drop(ep);
+    let maddr2: SocketAddr = ([127, 0, 0, 1], free_port()).into();
+    const IDLE_MS: u64 = 2000;
+    if let Some(ep2) = LiveEndpoint::start(move |addr| {
+        let settings = Settings::builder()
+            .listen_address(addr)
+            .unwrap()
+            .listen_protocols(ListenProtocolSettings {
+                http1: Some(Http1Settings::builder().build()),
+                http2: Some(Http2Settings::builder().build()),
+                quic: Some(QuicSettings::builder().build()),
+            })
+            .allow_private_network_connections(true)
+            .metrics(MetricsSettings::builder().listen_address(maddr2).unwrap().request_timeout(Duration::from_secs(3)).build().unwrap())
+            .build()
+            .unwrap();
+        Core::new(settings, None, plain_hosts(), Shutdown::new()).unwrap()
+    }) {
+        let t0 = Instant::now();
+        while scrape(maddr2).is_none() && t0.elapsed() < Duration::from_secs(5) {
+            std::thread::sleep(Duration::from_millis(20));
+        }
+        for late_data in [false, true] {
+            ctx.stat("h3_vanishing_clients");
+            let desc = format!(
+                "an HTTP/3 client with an open tunnel stops sending without closing (QUIC idle timeout {} ms){}",
+                IDLE_MS,
+                if late_data { "; the origin sends 1000 bytes 1 s later" } else { "" }
+            );
+            // the client asks for the short idle timeout; the endpoint's own session timeout stays at its default
+            let Ok(mut c) = H3Client::connect_idle(ep2.addr, Some("localhost"), &[b"h3"], 1 << 20, Duration::from_secs(3), IDLE_MS) else {
+                ctx.oracle_failure("quic_handshake_failed", &desc);
+                continue;
+            };
+            let Some(id) = c.request("CONNECT", None, &target, None, &[], false) else { continue };
+            let t0 = Instant::now();
+            let mut origin = None;
+            while t0.elapsed() < Duration::from_secs(3) && origin.is_none() {
+                c.pump();
+                if let Ok((s, _)) = origin_l.accept() {
+                    origin = Some(s);
+                }
+                std::thread::sleep(Duration::from_millis(1));
+            }
+            c.wait(Duration::from_secs(2), |c| c.streams.get(&id).map(|s| s.status.is_some()).unwrap_or(false));
+            let up = scrape(maddr2);
+            if up.as_ref().map(|o| (o.s[2], o.tcp)) != Some((1, 1)) {
+                ctx.oracle_failure("metrics_differ", &format!("{}: with the session and its tunnel up the gauges read {:?}", desc, up.map(|o| (o.s, o.tcp))));
+            }
+            // the client is gone without a word: it is neither polled nor closed any more (its socket stays bound, so
+            // nothing is ever answered to the endpoint)
+            let gone = Instant::now();
+            let _silent = c;
+            if late_data {
+                std::thread::sleep(Duration::from_millis(1000));
+                if let Some(o) = origin.as_mut() {
+                    let _ = o.write_all(&[0x44u8; 1000]);
+                }
+            }
+            // released by idle timeout + draining; generous bound
+            let bound = Duration::from_millis(IDLE_MS + 1000 + 4000);
+            let mut last = None;
+            let mut ok = false;
+            while gone.elapsed() < bound {
+                last = scrape(maddr2);
+                if last.as_ref().map(|o| o.s[2] == 0 && o.tcp == 0).unwrap_or(false) {
+                    ok = true;
+                    break;
+                }
+                std::thread::sleep(Duration::from_millis(50));
+            }
+            if !ok {
+                ctx.oracle_failure(
+                    "gauges_not_zero",
+                    &format!("{}: {} ms after the client had gone client_sessions{{http3}} = {:?}, outbound_tcp_sockets = {:?}", desc, gone.elapsed().as_millis(), last.as_ref().map(|o| o.s[2]), last.as_ref().map(|o| o.tcp)),
+                );
+            } else {
+                ctx.notes.push(format!("vanished client (late data: {}): gauges back at zero after {} ms", late_data, gone.elapsed().as_millis()));
+            }
+            drop(origin);
+        }
     }
     ctx.notes.push(format!("client->peer bytes of HTTP/3 tunnels feed {}", if up_is_outbound { "outbound_traffic_bytes" } else { "inbound_traffic_bytes" }));
 }
